@@ -36,6 +36,32 @@ theorem C08_steps_edges_active (ext : Bool) (dss : List (List Call)) (hx : ∀ d
       subst e1; subst e2
       exact ⟨cond, h, hb'⟩
 
+/-- **C08 (edges, several steps, ANY external directives, extensions on)**: as `C08_steps_edges_active`, with the externals passed on and read by `progOf` -/
+theorem C08_steps_edges_active_ext (dss : List (List Call)) (hx : ∀ ds ∈ dss, ∀ d ∈ ds, PlainOk d)
+    (hnh : ∀ ds ∈ dss, ∀ d ∈ ds, isHeu d = false)
+    (hr : ∀ a b cond, Call.acycEdge a b cond ∈ dss.flatten → (-2147483648 ≤ a ∧ a ≤ 2147483647) ∧ (-2147483648 ≤ b ∧ b ≤ 2147483647))
+    (hno : ∀ n cond, Call.output n cond ∈ dss.flatten → ∀ a b, n ≠ edgeName a b) :
+    ∃ E : I → I,
+      (∀ X, Stable (progOf dss.flatten) X → Stable (progOf (convert true (stepsCalls dss)).out) (E X) ∧ E X 1 = false) ∧
+      (∀ X', Stable (progOf (convert true (stepsCalls dss)).out) X' → X' 1 = false → ∃ X, Stable (progOf dss.flatten) X ∧ E X = X') ∧
+      (∀ X a b, (-2147483648 ≤ a ∧ a ≤ 2147483647) → (-2147483648 ≤ b ∧ b ≤ 2147483647) →
+        (edgeActive dss.flatten X a b ↔ shownOut (convert true (stepsCalls dss)).out (E X) (edgeName a b))) := by
+  obtain ⟨E, h1, h2, h3⟩ := C02_steps_equivalence_ext dss hx hnh
+  refine ⟨E, fun X hs => ⟨(h1 X hs).1, (h1 X hs).2.1⟩, fun X' hs h0 => ⟨_, (h2 X' hs h0).1, (h2 X' hs h0).2⟩, ?_⟩
+  intro X a b ha hb
+  rw [← h3 X (edgeName a b)]
+  unfold edgeActive C02.shown
+  constructor
+  · rintro ⟨cond, hm, hb'⟩
+    exact ⟨cond, (srcOuts_mem dss.flatten _ cond).mpr (Or.inr ⟨a, b, hm, rfl⟩), hb'⟩
+  · rintro ⟨cond, hm, hb'⟩
+    rcases (srcOuts_mem dss.flatten _ cond).mp hm with h | ⟨a', b', h, e⟩
+    · exact absurd rfl (hno _ cond h a b)
+    · obtain ⟨ra, rb⟩ := hr a' b' cond h
+      obtain ⟨e1, e2⟩ := edgeName_inj a b a' b' ha hb ra rb e
+      subst e1; subst e2
+      exact ⟨cond, h, hb'⟩
+
 /-- non-vacuity: an edge in the first step, another in the second -/
 def exEdgeSteps : List (List Call) := [[.rule 1 [1, 2] [], .acycEdge 0 1 [1]], [.rule 0 [3] [2], .acycEdge 1 0 [3, -1]]]
 
